@@ -85,7 +85,7 @@ func (r *Recorder) Register(env *stick.Env) {
 
 // NewCoreEnv returns a core environment over the given sources with the recording callbacks.
 func NewCoreEnv(sources map[string]string) (*stick.Env, *Recorder) {
-	env := stick.New(&stick.MemoryLoader{Templates: sources})
+	env := stick.New(&ShapedLoader{Templates: sources})
 	r := &Recorder{}
 	r.Register(env)
 	return env, r
@@ -93,7 +93,7 @@ func NewCoreEnv(sources map[string]string) (*stick.Env, *Recorder) {
 
 // NewTwigEnv returns a Twig environment over the given sources with the recording callbacks.
 func NewTwigEnv(sources map[string]string) (*stick.Env, *Recorder) {
-	env := twig.New(&stick.MemoryLoader{Templates: sources})
+	env := twig.New(&ShapedLoader{Templates: sources})
 	r := &Recorder{}
 	r.Register(env)
 	return env, r
